@@ -31,10 +31,10 @@ PROPS = {
                 profiles=[('values', 480, 8), ('serial', 160, 4), ('std', 160, 4), ('vacant', 512, 2), ('nfb', 8, 8)],
                 suites={'K-search': None, 'K-build': None, 'K-serial': None}, invs=['TableInv', 'LeftmostInv']),
     'C07': dict(module='Daac.Props.C07', prop_ids=['C07'], abort_is_violation=True,
-                profiles=[('mixed', 400, 8), ('utf8', 160, 4), ('nfb', 8, 8), ('serial', 80, 2)],
+                profiles=[('mixed', 400, 8), ('utf8', 160, 4), ('nfb', 8, 8), ('serial', 80, 2), ('wide', 32, 8)],
                 suites={'K-trans': None, 'K-search': None}, invs=['BoundsInv'], scans=['unsafe'], tcap=12000),
     'C08': dict(module='Daac.Props.C08', prop_ids=['C08'], grouped=True, methods=['ov', 'find', 'ns', 'lm'],
-                profiles=[('utf8', 640, 16)],
+                profiles=[('utf8', 640, 16), ('wide', 32, 8)],
                 suites={'K-search': None, 'K-build': None}, invs=['TableInv', 'LeftmostInv'], variants=['C']),
     'C09': dict(module='Daac.Props.C09', prop_ids=['C09'],
                 profiles=[('serial', 640, 12), ('values', 160, 4), ('synth', 4000, 4)],
